@@ -5,7 +5,8 @@
 //! class) at EVERY offset 0..=len (see `run` for the strided middle part of the synthetic
 //! messages larger than 2048 bytes), and once more uncut. The parsers are the REAL
 //! `NtsRecord::parse`, `Request::parse`, `KeyExchangeResponse::parse`, reached through
-//! the in-crate facade. Monitors, per delivery:
+//! the in-crate facade. Messages: `base_corpus` (real serialisers + hand-built), the systematic
+//! well-framed degenerate-content family of `degen.rs`, and mutated variants. Monitors, per delivery:
 //!   * the parse future completes: no panic, and never "pending with nothing left to read";
 //!   * request / response parsers consumed at most 4096 bytes of the stream;
 //!   * an accepted value re-serialises (real serialiser) to bytes that parse to an equal
@@ -506,8 +507,18 @@ pub fn n_base() -> u64 {
     *N.get_or_init(|| base_corpus().len() as u64)
 }
 
+/// Mutated variants per message of the systematic degenerate family (`degen.rs`); the
+/// family is itself a systematic variation, so the quick tier adds none.
+pub fn variants_per_degenerate(thorough: bool) -> u64 {
+    if thorough { 3 } else { 0 }
+}
+
+pub fn n_degen() -> u64 {
+    crate::degen::corpus().len() as u64
+}
+
 pub fn n_messages(thorough: bool) -> u64 {
-    n_base() * (1 + variants_per_message(thorough))
+    n_base() * (1 + variants_per_message(thorough)) + n_degen() * (1 + variants_per_degenerate(thorough))
 }
 
 pub fn n_cases(thorough: bool) -> u64 {
@@ -738,11 +749,21 @@ pub fn case_of(index: u64, thorough: bool) -> (u64, u64, u64) {
 
 pub fn message(base: &[Msg], mi: u64, thorough: bool) -> Msg {
     let nb = base.len() as u64;
+    let degen = crate::degen::corpus();
+    let nd = degen.len() as u64;
+    let per = variants_per_message(thorough);
     if mi < nb {
         base[mi as usize].clone()
+    } else if mi < nb + nd {
+        degen[(mi - nb) as usize].clone()
+    } else if mi >= nb + nd + nb * per {
+        // mutated variant of a degenerate message
+        let k = mi - (nb + nd + nb * per);
+        let perd = variants_per_degenerate(thorough).max(1);
+        let di = (k / perd) as usize;
+        mutate(&degen[di], 100_000 + di, k % perd)
     } else {
-        let k = mi - nb;
-        let per = variants_per_message(thorough);
+        let k = mi - nb - nd;
         let bi = (k / per) as usize;
         let vi = k % per;
         let b = &base[bi];
@@ -776,7 +797,9 @@ pub fn run() {
     if msg.endless {
         fault("endless-record-stream");
     }
-    if mi >= base.len() as u64 {
+    if mi >= base.len() as u64 && mi < base.len() as u64 + n_degen() {
+        fault("degenerate-well-framed-message");
+    } else if mi >= base.len() as u64 {
         fault("mutated-message");
     }
 
